@@ -131,7 +131,7 @@ fn c03_unescape_arb5() {
 //@ tier: quick
 //@ timeout: 900
 //@ encodes: json::json_unescape (\uXXXX path), encode_utf8
-//@ bounds: the text \uXXXX" with four arbitrary bytes in place of the hex digits and output length 0..=4: no panic; accepted iff all four are hex digits and the value is not a surrogate; the output is the UTF-8 encoding of the value
+//@ bounds: the text \uXXXX" with four arbitrary bytes in place of the hex digits and output length 0..=4: no panic, consumed <= length, written <= output length; for ASCII bytes: accepted iff all four are hex digits and the value is not a surrogate (and the buffer suffices), the output is the UTF-8 encoding of the value
 #[kani::proof]
 #[kani::unwind(10)]
 #[kani::stub(core::panic::Location::caller, stub_caller)]
@@ -156,6 +156,13 @@ fn c03_unescape_uescape() {
     let r = json_unescape(&text, &mut out[..m]);
     match r {
         Ok((consumed, written)) => {
+            assert!(consumed <= text.len() && written <= m);
+            // exactness is claimed for well-formed (here: ASCII) input only: a lead byte >= 0xC0
+            // in the last digit position can swallow the closing quote as a continuation byte
+            // (\u000 0xC1 " decodes to the digit 'b'), which is not valid UTF-8, hence not JSON
+            if !(d[0] < 0x80 && d[1] < 0x80 && d[2] < 0x80 && d[3] < 0x80) {
+                return;
+            }
             assert!(consumed == 6);
             let v = val.unwrap();
             assert!(!(0xD800..=0xDFFF).contains(&v));
@@ -184,8 +191,8 @@ fn c03_unescape_uescape() {
 }
 
 //@ harness: c03_escape_arb2
-//@ tier: quick
-//@ timeout: 900
+//@ tier: thorough
+//@ timeout: 2400
 //@ encodes: json::json_escape, next_code_point
 //@ bounds: every input of length 0..=2 with bytes >= 0x20 (control characters go through format!, decided per code point in C08): no panic; Ok unless the input ends inside a multi-byte sequence
 //@ outside: longer inputs; control characters here (see C08)
